@@ -768,10 +768,10 @@ impl Graph {
             };
             self.parents_invalid = true;
             self.positions_invalid = true;
-            for (parent_id, len) in &self.nodes[new_id].parents {
+            for (parent_id, len) in &self.nodes[root].parents {
                 if !matches!(len, OffsetLen::Offset16) {
                     for link in &mut self.objects.get_mut(parent_id).unwrap().offsets {
-                        if link.object == *root {
+                        if link.object == *root && link.len != OffsetLen::Offset16 {
                             link.object = *new_id;
                         }
                     }
@@ -1561,6 +1561,10 @@ mod tests {
             .build();
         graph.assign_spaces_hb();
         assert_eq!(graph.nodes.len(), 4);
+        // the copy is what the 32-bit link now points to; the 16-bit link keeps the original
+        let copy = *graph.objects.keys().find(|id| !ids.contains(id)).unwrap();
+        assert_eq!(graph.objects[&ids[0]].offsets[1].object, copy);
+        assert_eq!(graph.objects[&ids[1]].offsets[0].object, ids[2]);
     }
 
     #[test]
